@@ -12,6 +12,8 @@ for f in sorted(glob.glob("/tmp/seedrun/*.json")):
     if name == "summary":
         continue
     m0 = re.match(r"(C\d\d)-(\d+)-patch$", name) or re.match(r"(C\d\d)-patch(\d+)$", name)
+    if not m0:
+        continue        # evaluations of harmless rewrites (seeded/harmless) are summarised separately
     pid, k = m0.group(1), m0.group(2)
     own = r["checks"].get(pid, {})
     rp = own.get("replay") or {}
